@@ -246,18 +246,36 @@ func (a Box2) MinMaxDist2(p v2.Vec) Interval {
 
 //-----------------------------------------------------------------------------
 
-// tAppend appends a t-value to the slice if it is unique and in range.
-func tAppend(set []float64, t float64) []float64 {
-	if t < 0 || t > 1 {
-		// out of range
-		return set
+// lineClip clips a line to the range min <= x <= max. No tolerances are involved:
+// An end point within the range is kept as it is. An end point outside of the range is replaced
+// by the point where the line crosses min/max: x is set to that value exactly, y stays within
+// the y-values of the end points (and below the larger one if they differ). So the pieces of a
+// line in adjacent ranges meet in one and the same point, no piece leaves the bounding box of
+// the line, and a piece that has been cut never runs along the top of that box.
+// A line along x == max belongs to the adjacent range: nil. A line with no more than an end
+// point in the range: nil.
+func lineClip(l Line2, min, max float64) *Line2 {
+	x0, x1 := l[0].X, l[1].X
+	if x0 == x1 {
+		if x0 < min || x0 >= max {
+			return nil
+		}
+		return &l
 	}
-	for i := range set {
-		if EqualFloat64(set[i], t, tolerance) {
-			return set
+	if math.Max(x0, x1) <= min || math.Min(x0, x1) >= max {
+		return nil
+	}
+	ymin := math.Min(l[0].Y, l[1].Y)
+	ymax := math.Max(l[0].Y, l[1].Y)
+	out := l
+	for i := range l {
+		x := math.Min(math.Max(l[i].X, min), max)
+		if x != l[i].X {
+			y := l[0].Y + (l[1].Y-l[0].Y)*((x-x0)/(x1-x0))
+			out[i] = v2.Vec{x, math.Min(math.Max(y, ymin), math.Nextafter(ymax, ymin))}
 		}
 	}
-	return append(set, t)
+	return &out
 }
 
 // lineIntersect returns a line/box intersection.
@@ -281,49 +299,16 @@ func (a *Box2) lineIntersect(l *Line2) *Line2 {
 		return l
 	}
 
-	tSet := []float64{0, 1}
-
-	if v.Y != 0 {
-		// consider intersection with y-sides (top/bottom)
-		k := 1.0 / v.Y
-		tSet = tAppend(tSet, (a.Min.Y-u.Y)*k)
-		tSet = tAppend(tSet, (a.Max.Y-u.Y)*k)
-	}
-
-	if v.X != 0 {
-		// consider intersection with x-sides (left/right)
-		k := 1.0 / v.X
-		tSet = tAppend(tSet, (a.Min.X-u.X)*k)
-		tSet = tAppend(tSet, (a.Max.X-u.X)*k)
-	}
-
-	// filter the t-values
-	var pSet []v2.Vec
-	for _, t := range tSet {
-		p := u.Add(v.MulScalar(t))
-		// the end points of the line are used as they are: u + v*1 need not be l[1]
-		if t == 0 {
-			p = l[0]
-		} else if t == 1 {
-			p = l[1]
-		}
-		p = a.Snap(p, tolerance)
-		// is the point in the box?
-		if a.Contains(p) {
-			pSet = append(pSet, p)
-		}
-	}
-
-	if len(pSet) != 2 {
+	// clip to the x-range of the box, then clip the result to the y-range
+	x := lineClip(*l, a.Min.X, a.Max.X)
+	if x == nil {
 		return nil
 	}
-
-	// make sure it's aligned with the original line
-	vx := pSet[1].Sub(pSet[0])
-	if v.Dot(vx) > 0 {
-		return &Line2{pSet[0], pSet[1]}
+	y := lineClip(Line2{{x[0].Y, x[0].X}, {x[1].Y, x[1].X}}, a.Min.Y, a.Max.Y)
+	if y == nil {
+		return nil
 	}
-	return &Line2{pSet[1], pSet[0]}
+	return &Line2{{y[0].Y, y[0].X}, {y[1].Y, y[1].X}}
 }
 
 // lineFilter returns the intersection of a box and a set of line segments.
